@@ -345,6 +345,24 @@ def run_rules(rep, repo):
         carrying = [c for c in calls if c[2] and c[2][-1] == ('rep', (('var', rest),))]
         mention = [c for c in calls if any(x == ('rep', (('var', rest),)) for x in c[2])]
         ok = len(carrying) == 1 and len(mention) == 1 and bool(calls) and calls[-1] is carrying[0]
+        if ok:
+            # .. and it is the last thing the rule does: a helper call written after the continuation would run after everything that follows in the
+            # document (the path through an array of tables is resolved when the helper runs)
+            def tail_after(ts, target):
+                ts = list(ts)
+                for i, e in enumerate(ts):
+                    if e is target:
+                        return [x for x in ts[i + 1:] if x != ('lit', ';')]
+                    if e[0] == 'g':
+                        r_ = tail_after(e[2], target)
+                        if r_ is not None:
+                            return r_ + [x for x in ts[i + 1:] if x != ('lit', ';')]
+                return None
+            after = tail_after(r['t'], carrying[0])
+            if after:
+                rep.bad(R6, f'@{r["state"]}#{idx}|rest', f'the rule at line {r["line"]} does something after its continuation (`{render_t(after)[:70]}`): that step runs after the rest of the '
+                        f'document has been processed, e.g. an insertion under `[[array]]` lands in the last element', f'{file}:{r["line"]}')
+                continue
         if not calls and any(x == ('var', rest) for x in flatten_all(r['t'])):
             # a terminal helper (`(@datetime $($dt:tt)*) => { ..concat!($(stringify!($dt)),+).. }`): the tokens are consumed here, nothing is left to forward
             rep.ok(R6, f'@{r["state"]}#{idx}|rest', f'terminal rule: $(${rest})* is consumed by the transcriber', f'{file}:{r["line"]}')
@@ -566,6 +584,15 @@ def r4_helpers(rep, facts):
               '*traverse(root, path) = value', 'insert_toml no longer assigns through traverse', facts.loc(b))
 
 
+def r11_map_identity(rep, facts):
+    if 'toml' not in facts.crates:
+        return
+    from .rules_c16 import map_identity
+    R = rep.rule('C19/R11', 'the comparison `macro table == parsed table` is the backing map\'s own equality: under preserve_order the macro and the parser insert the same keys in '
+                 'different orders (the parser re-inserts a super-table when its header comes after a sub-table\'s), so an order-sensitive PartialEq would tell equal tables apart', floor=1)
+    map_identity(rep, R, facts)
+
+
 def r9_datetime_total(rep, facts):
     if 'toml_datetime' not in facts.crates:
         return
@@ -584,6 +611,7 @@ def run(tier):
         rep.bodies_analysed = facts.n_bodies()
         r4_helpers(rep, facts)
         r9_datetime_total(rep, facts)
+        r11_map_identity(rep, facts)
     except AnalysisIncomplete as e:
         rep.incomplete('C19/analysis', 'rules', str(e))
     except Exception:
